@@ -13,7 +13,7 @@
 //   "OK cost | caps after | allocations | toAssignment | scaled integer costs() # oracle"   (TF)
 //      cost = sum allocations*costs() in exact integers; oracle = minimum cost by lemon::NetworkSimplex on the same
 //      (scaled) integer costs and the capacities after increaseCapacity, "-" when demand > capacity
-//   "THROW msg" / "ABORT" / "SEGV" / "FPE" / "HANG"
+//   "THROW msg" / "ABORT" / "SEGV" / "FPE" / "HANG" (CPU-time limit) / "SKIPPED ..." (after 20 HANGs in one process)
 #include "vh.hpp"
 #include <cmath>
 #include <lemon/list_graph.h>
@@ -24,7 +24,16 @@
 using namespace coloquinte;
 typedef long long ll;
 
+// a case that does not return: CPU-time limit (ITIMER_VIRTUAL, insensitive to machine load): 5 s, and 0.5 s once three
+// cases of this process have hung (the unmutated solver needs < 0.05 s on the largest generated problem)
+#include <sys/time.h>
+static int n_hangs = 0;
 static void alarm_handler(int) { vh_sig = SIGALRM; siglongjmp(vh_jmp, 1); }
+static void cpu_alarm(bool on) {
+  struct itimerval it; memset(&it, 0, sizeof it);
+  if (on) { if (n_hangs >= 3) it.it_value.tv_usec = 500000; else it.it_value.tv_sec = 5; }
+  setitimer(ITIMER_VIRTUAL, &it, nullptr);
+}
 
 static std::string oracle(const std::vector<ll> &caps, const std::vector<ll> &dems, const std::vector<std::vector<int>> &costs) {
   ll td = 0, tc = 0; for (ll d : dems) td += d; for (ll c : caps) tc += c;
@@ -165,19 +174,20 @@ int main(int argc, char **argv) {
     return 0;
   }
   vh_install();
-  { struct sigaction sa; memset(&sa, 0, sizeof sa); sa.sa_handler = alarm_handler; sa.sa_flags = SA_NODEFER; sigaction(SIGALRM, &sa, nullptr); }
+  { struct sigaction sa; memset(&sa, 0, sizeof sa); sa.sa_handler = alarm_handler; sa.sa_flags = SA_NODEFER; sigaction(SIGVTALRM, &sa, nullptr); }
   std::string line;
   while (std::getline(std::cin, line)) {
     if (line.size() < 3) { printf("\n"); continue; }
     bool flt = line[1] == 'F';
     auto v = vh_ints(line.substr(3)); size_t p = 0;
     auto nx = [&]() -> ll { return p < v.size() ? v[p++] : 0; };
-    if (sigsetjmp(vh_jmp, 1)) { alarm(0); printf("%s\n", vh_sig == SIGALRM ? "HANG" : vh_signame()); fflush(stdout); continue; }
+    if (n_hangs >= 20) { printf("SKIPPED after 20 cases of this process did not return\n"); continue; }
+    if (sigsetjmp(vh_jmp, 1)) { cpu_alarm(false); if (vh_sig == SIGALRM) ++n_hangs; printf("%s\n", vh_sig == SIGALRM ? "HANG" : vh_signame()); fflush(stdout); continue; }
     try {
       int incr = (int)nx(); int nsnk = (int)nx(), nsrc = (int)nx();
       std::vector<ll> caps(nsnk), dems(nsrc);
       for (auto &c : caps) c = nx(); for (auto &d : dems) d = nx();
-      alarm(20);
+      cpu_alarm(true);
       TransportationProblem *pb;
       if (flt) {
         float den = (float)nx();
@@ -191,10 +201,10 @@ int main(int argc, char **argv) {
       }
       if (incr) pb->increaseCapacity();
       std::string orc = oracle(pb->capacities(), pb->demands(), pb->costs());
-      if (pb->totalDemand() > pb->totalCapacity()) { alarm(0); printf("UNBALANCED\n"); delete pb; continue; }
+      if (pb->totalDemand() > pb->totalCapacity()) { cpu_alarm(false); printf("UNBALANCED\n"); delete pb; continue; }
       pb->solve();
       std::vector<int> asg = pb->toAssignment();
-      alarm(0);
+      cpu_alarm(false);
       __int128 cost = 0;
       for (int j = 0; j < nsnk; ++j) for (int i = 0; i < nsrc; ++i) cost += (__int128)pb->allocation(j, i) * pb->cost(j, i);
       printf("OK %lld |", (ll)cost);
@@ -206,7 +216,7 @@ int main(int argc, char **argv) {
       if (flt) { printf(" |"); for (int j = 0; j < nsnk; ++j) for (int i = 0; i < nsrc; ++i) printf(" %d", pb->cost(j, i)); }
       printf(" # %s\n", orc.c_str());
       delete pb;
-    } catch (std::exception &ex) { alarm(0); printf("THROW %s\n", ex.what()); }
+    } catch (std::exception &ex) { cpu_alarm(false); printf("THROW %s\n", ex.what()); }
   }
   return 0;
 }
